@@ -1,5 +1,4 @@
 import Tmv.Lemmas.NetVoteSet
-import Tmv.Lemmas.Agreement
 /-! Vote-set arithmetic for C03 (termination): votes carrying at least the quorum for one value,
 delivered in ANY order to a vote set that may also hold conflicting votes of other validators and
 catch-up junk, yield the recorded +2/3 majority for that value; and votes of more than 2/3 of the
@@ -118,43 +117,549 @@ structure VoteSet.WF (c : Cfg) (vs : VoteSet) : Prop where
   slot : ∀ k v, vs.has k v → (alookup vs.votes v).isSome = true
   slotHas : ∀ v k, alookup vs.votes v = some k → ∃ k', vs.has k' v
 
+/-! ### helpers: `has`, and the part of `WF` that `recordVote` / `finish` rebuild -/
+
+theorem VoteSet.has_congr {vs vs' : VoteSet} (e : vs'.byBlock = vs.byBlock) (k : Bid) (v : Nat) :
+    vs'.has k v ↔ vs.has k v := by
+  unfold VoteSet.has; rw [e]
+
+theorem VoteSet.has_aset {vs vs' : VoteSet} {key : Bid} {bv : BlockVotes}
+    (e : vs'.byBlock = aset vs.byBlock key bv) (k : Bid) (v : Nat) :
+    vs'.has k v ↔ if k = key then v ∈ bv.voted else vs.has k v := by
+  unfold VoteSet.has
+  rw [e, alookup_aset]
+  by_cases hk : k = key
+  · simp only [hk, if_true]
+    constructor
+    · rintro ⟨b, hb, hv⟩; cases hb; exact hv
+    · intro hv; exact ⟨bv, rfl, hv⟩
+  · simp only [hk, if_false]
+
+theorem VoteSet.blockSum_congr {vs vs' : VoteSet} (e : vs'.byBlock = vs.byBlock) (k : Bid) :
+    vs'.blockSum k = vs.blockSum k := by
+  unfold VoteSet.blockSum; rw [e]
+
+theorem VoteSet.blockSum_aset' {vs vs' : VoteSet} {key : Bid} {bv : BlockVotes}
+    (e : vs'.byBlock = aset vs.byBlock key bv) (k : Bid) :
+    vs'.blockSum k = if k = key then bv.sum else vs.blockSum k := by
+  unfold VoteSet.blockSum
+  rw [e, alookup_aset]
+  by_cases hk : k = key <;> simp [hk]
+
+/-- `WF` without the bucket invariants, and with `slotHas` excused on `P` -/
+structure VoteSet.WFp (c : Cfg) (vs : VoteSet) (P : Nat → Prop) : Prop where
+  cross : ∀ k, c.quorum ≤ vs.blockSum k → vs.maj23.isSome = true
+  keys : (vs.votes.map (·.1)).Nodup
+  keysLt : ∀ k ∈ vs.votes.map (·.1), k < c.n
+  sum : vs.sum = ((vs.votes.map (·.1)).map c.power).sum
+  slot : ∀ k v, vs.has k v → (alookup vs.votes v).isSome = true
+  slotHas : ∀ v k, alookup vs.votes v = some k → P v ∨ ∃ k', vs.has k' v
+
+theorem VoteSet.WF.toWFp {c : Cfg} {vs : VoteSet} (h : vs.WF c) : vs.WFp c (fun _ => False) where
+  cross := h.cross
+  keys := h.keys
+  keysLt := by
+    intro k hk
+    obtain ⟨p, hp, e⟩ := List.mem_map.mp hk
+    subst e; exact h.keysLt p hp
+  sum := h.sum
+  slot := h.slot
+  slotHas := fun v k hv => Or.inr (h.slotHas v k hv)
+
+theorem VoteSet.WFp.toWF {c : Cfg} {vs : VoteSet} {P : Nat → Prop} (h : vs.WFp c P) (hP : ∀ v, ¬ P v)
+    (hm : MSv c (fun _ _ => true) vs) (hq : Qv c vs) : vs.WF c where
+  ms := hm
+  q := hq
+  cross := h.cross
+  keys := h.keys
+  keysLt := fun p hp => h.keysLt p.1 (List.mem_map.mpr ⟨p, hp, rfl⟩)
+  sum := h.sum
+  slot := h.slot
+  slotHas := by
+    intro v k hv
+    rcases h.slotHas v k hv with h1 | h1
+    · exact absurd h1 (hP v)
+    · exact h1
+
+theorem VoteSet.recordVote_byBlock (c : Cfg) (vs : VoteSet) (idx : Nat) (key : Bid) :
+    (vs.recordVote c idx key).byBlock = vs.byBlock ∧ (vs.recordVote c idx key).maj23 = vs.maj23 := by
+  unfold VoteSet.recordVote; repeat' split
+  all_goals exact ⟨rfl, rfl⟩
+
+theorem VoteSet.recordVote_WFp {c : Cfg} {vs : VoteSet} (idx : Nat) (key : Bid)
+    (h : vs.WFp c (fun _ => False)) (hi : idx < c.n) :
+    (vs.recordVote c idx key).WFp c (fun v => v = idx ∧ alookup vs.votes idx = none) ∧
+      (alookup (vs.recordVote c idx key).votes idx).isSome = true := by
+  have hsame : vs.WFp c (fun v => v = idx ∧ alookup vs.votes idx = none) :=
+    { h with slotHas := fun v k hv => (h.slotHas v k hv).elim False.elim Or.inr }
+  unfold VoteSet.recordVote
+  split
+  · rename_i b hb
+    have hsome : (alookup vs.votes idx).isSome = true := by rw [hb]; rfl
+    split
+    · have hk := aset_keys_some vs.votes idx key hsome
+      refine ⟨⟨h.cross, ?_, ?_, ?_, ?_, ?_⟩, ?_⟩
+      · show ((aset vs.votes idx key).map (·.1)).Nodup
+        rw [hk]; exact h.keys
+      · show ∀ k ∈ (aset vs.votes idx key).map (·.1), k < c.n
+        rw [hk]; exact h.keysLt
+      · show vs.sum = (((aset vs.votes idx key).map (·.1)).map c.power).sum
+        rw [hk]; exact h.sum
+      · intro k v hv
+        show (alookup (aset vs.votes idx key) v).isSome = true
+        rw [alookup_isSome_iff, hk, ← alookup_isSome_iff]
+        exact h.slot k v hv
+      · intro v k hv
+        have hv' : alookup (aset vs.votes idx key) v = some k := hv
+        rw [alookup_aset] at hv'
+        by_cases e : v = idx
+        · subst e
+          exact (h.slotHas v b hb).elim False.elim Or.inr
+        · simp only [e, if_false] at hv'
+          exact (h.slotHas v k hv').elim False.elim Or.inr
+      · show (alookup (aset vs.votes idx key) idx).isSome = true
+        rw [alookup_aset]; simp
+    · exact ⟨hsame, hsome⟩
+  · rename_i hb
+    have hk := aset_keys_none vs.votes idx key hb
+    have hni : idx ∉ vs.votes.map (·.1) := (alookup_none_iff _ _).mp hb
+    refine ⟨⟨h.cross, ?_, ?_, ?_, ?_, ?_⟩, ?_⟩
+    · show ((aset vs.votes idx key).map (·.1)).Nodup
+      rw [hk, List.nodup_append]
+      refine ⟨h.keys, by simp, ?_⟩
+      intro a ha b hb'
+      simp at hb'; subst hb'
+      intro e; subst e; exact hni ha
+    · show ∀ k ∈ (aset vs.votes idx key).map (·.1), k < c.n
+      rw [hk]
+      intro k hk'
+      rcases List.mem_append.mp hk' with h1 | h1
+      · exact h.keysLt k h1
+      · simp at h1; subst h1; exact hi
+    · show vs.sum + c.power idx = (((aset vs.votes idx key).map (·.1)).map c.power).sum
+      rw [hk, List.map_append, List.sum_append, ← h.sum]; simp
+    · intro k v hv
+      show (alookup (aset vs.votes idx key) v).isSome = true
+      rw [alookup_isSome_iff, hk]
+      exact List.mem_append_left _ ((alookup_isSome_iff _ _).mp (h.slot k v hv))
+    · intro v k hv
+      have hv' : alookup (aset vs.votes idx key) v = some k := hv
+      rw [alookup_aset] at hv'
+      by_cases e : v = idx
+      · exact Or.inl ⟨e, hb⟩
+      · simp only [e, if_false] at hv'
+        exact (h.slotHas v k hv').elim False.elim Or.inr
+    · show (alookup (aset vs.votes idx key) idx).isSome = true
+      rw [alookup_aset]; simp
+
+theorem VoteSet.finish_votes (c : Cfg) (vs : VoteSet) (idx : Nat) (key : Bid) (bv : BlockVotes) :
+    (VoteSet.finish c vs idx key bv).1.sum = vs.sum ∧
+    ((VoteSet.finish c vs idx key bv).1.votes = vs.votes ∨
+     (VoteSet.finish c vs idx key bv).1.votes =
+       (bv.add idx (c.power idx)).voted.foldl (fun vv i => aset vv i key) vs.votes) := by
+  unfold VoteSet.finish
+  simp only []
+  repeat' split
+  all_goals first | exact ⟨rfl, Or.inl rfl⟩ | exact ⟨rfl, Or.inr rfl⟩
+
+theorem VoteSet.finish_cross (c : Cfg) (vs : VoteSet) (idx : Nat) (key : Bid) (bv : BlockVotes)
+    (hc : ∀ k, c.quorum ≤ vs.blockSum k → vs.maj23.isSome = true)
+    (hsum : c.quorum ≤ bv.sum → vs.maj23.isSome = true) (k : Bid)
+    (hk : c.quorum ≤ (VoteSet.finish c vs idx key bv).1.blockSum k) :
+    (VoteSet.finish c vs idx key bv).1.maj23.isSome = true := by
+  have hstab : vs.maj23.isSome = true → (VoteSet.finish c vs idx key bv).1.maj23.isSome = true := by
+    intro hs
+    cases hm : vs.maj23 with
+    | none => rw [hm] at hs; cases hs
+    | some x => rw [VoteSet.finish_maj23 c vs idx key bv x hm]; rfl
+  rw [VoteSet.blockSum_aset' (VoteSet.finish_byBlock c vs idx key bv)] at hk
+  by_cases e : k = key
+  · simp only [e, if_true] at hk
+    by_cases ho : c.quorum ≤ bv.sum
+    · exact hstab (hsum ho)
+    · by_cases hn : vs.maj23.isSome = true
+      · exact hstab hn
+      · unfold VoteSet.finish
+        simp only []
+        have hcond : bv.sum < c.quorum ∧ c.quorum ≤ (bv.add idx (c.power idx)).sum := ⟨by omega, hk⟩
+        have hnone : vs.maj23.isNone = true := by
+          cases hm : vs.maj23 with
+          | none => rfl
+          | some x => rw [hm] at hn; exact absurd rfl hn
+        simp only [hcond, and_self, if_true, hnone]
+        rfl
+  · simp only [e, if_false] at hk
+    exact hstab (hc k hk)
+
+theorem VoteSet.finish_WFp {c : Cfg} {vs : VoteSet} {P : Nat → Prop} (idx : Nat) (key : Bid) (bv : BlockVotes)
+    (h : vs.WFp c P) (hP : ∀ v, P v → v = idx) (hidx : (alookup vs.votes idx).isSome = true)
+    (hsum : c.quorum ≤ bv.sum → vs.maj23.isSome = true)
+    (hmem : ∀ v, v ∈ bv.voted ↔ vs.has key v) :
+    (VoteSet.finish c vs idx key bv).1.WFp c (fun _ => False) := by
+  have hb := VoteSet.finish_byBlock c vs idx key bv
+  have hhas : ∀ k v, (VoteSet.finish c vs idx key bv).1.has k v ↔
+      if k = key then (v ∈ bv.voted ∨ v = idx) else vs.has k v := by
+    intro k v
+    rw [VoteSet.has_aset hb, BlockVotes.mem_add]
+  have hmono : ∀ k v, vs.has k v → (VoteSet.finish c vs idx key bv).1.has k v := by
+    intro k v hv
+    rw [hhas]
+    by_cases e : k = key
+    · subst e; simp only [if_true]; exact Or.inl ((hmem v).mpr hv)
+    · simp only [e, if_false]; exact hv
+  have hslotv : ∀ i ∈ (bv.add idx (c.power idx)).voted, (alookup vs.votes i).isSome = true := by
+    intro i hi
+    rcases (BlockVotes.mem_add _ _ _ _).mp hi with h1 | h1
+    · exact h.slot key i ((hmem i).mp h1)
+    · subst h1; exact hidx
+  obtain ⟨hs, hv⟩ := VoteSet.finish_votes c vs idx key bv
+  have hk : (VoteSet.finish c vs idx key bv).1.votes.map (·.1) = vs.votes.map (·.1) := by
+    rcases hv with hv | hv
+    · rw [hv]
+    · rw [hv]; exact foldl_aset_keys _ key vs.votes hslotv
+  have hl : ∀ v k, alookup (VoteSet.finish c vs idx key bv).1.votes v = some k →
+      v ∈ (bv.add idx (c.power idx)).voted ∨ alookup vs.votes v = some k := by
+    intro v k hvk
+    rcases hv with hv | hv
+    · rw [hv] at hvk; exact Or.inr hvk
+    · rw [hv] at hvk; exact foldl_aset_lookup _ key vs.votes v k hvk
+  refine ⟨VoteSet.finish_cross c vs idx key bv h.cross hsum, ?_, ?_, ?_, ?_, ?_⟩
+  · rw [hk]; exact h.keys
+  · rw [hk]; exact h.keysLt
+  · rw [hk, hs]; exact h.sum
+  · intro k v hkv
+    rw [alookup_isSome_iff, hk, ← alookup_isSome_iff]
+    rw [hhas] at hkv
+    by_cases e : k = key
+    · simp only [e, if_true] at hkv
+      exact hslotv v ((BlockVotes.mem_add _ _ _ _).mpr hkv)
+    · simp only [e, if_false] at hkv
+      exact h.slot k v hkv
+  · intro v k hvk
+    right
+    have hin : ∀ u, u ∈ (bv.add idx (c.power idx)).voted → (VoteSet.finish c vs idx key bv).1.has key u := by
+      intro u hu
+      rw [hhas]; simp only [if_true]; exact (BlockVotes.mem_add _ _ _ _).mp hu
+    rcases hl v k hvk with h1 | h1
+    · exact ⟨key, hin v h1⟩
+    · rcases h.slotHas v k h1 with h2 | ⟨k', h2⟩
+      · have := hP v h2; subst this
+        exact ⟨key, hin v ((BlockVotes.mem_add _ _ _ _).mpr (Or.inr rfl))⟩
+      · exact ⟨k', hmono k' v h2⟩
+
+theorem VoteSet.addVerified_WFp {c : Cfg} {vs : VoteSet} (idx : Nat) (key : Bid)
+    (h : vs.WFp c (fun _ => False)) (hi : idx < c.n) :
+    (vs.addVerified c idx key).1.WFp c (fun _ => False) := by
+  obtain ⟨h1, hidx⟩ := VoteSet.recordVote_WFp idx key h hi
+  have hconf : (alookup vs.votes idx).isSome = true → (vs.recordVote c idx key).WFp c (fun _ => False) := by
+    intro hs
+    refine { h1 with slotHas := fun v k hv => ?_ }
+    rcases h1.slotHas v k hv with ⟨_, h2⟩ | h2
+    · rw [h2] at hs; cases hs
+    · exact Or.inr h2
+  unfold VoteSet.addVerified
+  simp only []
+  split
+  · rename_i bv hb
+    split
+    · rename_i hc
+      apply hconf
+      cases hs : (alookup vs.votes idx).isSome
+      · simp [hs] at hc
+      · rfl
+    · apply VoteSet.finish_WFp idx key bv h1 (fun v hv => hv.1) hidx
+      · intro hq
+        apply h1.cross key
+        unfold VoteSet.blockSum; rw [hb]; exact hq
+      · intro v
+        unfold VoteSet.has; rw [hb]
+        constructor
+        · intro hv; exact ⟨bv, rfl, hv⟩
+        · rintro ⟨b, e, hv⟩; cases e; exact hv
+  · rename_i hb
+    split
+    · rename_i hc
+      exact hconf hc
+    · apply VoteSet.finish_WFp idx key _ h1 (fun v hv => hv.1) hidx
+      · intro hq
+        have : 1 ≤ c.quorum := by unfold Cfg.quorum; omega
+        have hq' : c.quorum ≤ 0 := hq
+        omega
+      · intro v
+        unfold VoteSet.has; rw [hb]
+        constructor
+        · intro hv; cases hv
+        · rintro ⟨b, e, _⟩; cases e
+
+theorem VoteSet.addVerified_byBlock (c : Cfg) (vs : VoteSet) (idx : Nat) (key : Bid) :
+    ∃ bv : BlockVotes, (∀ v, v ∈ bv.voted ↔ vs.has key v) ∧
+      (((vs.addVerified c idx key).1.byBlock = vs.byBlock ∧ (alookup vs.votes idx).isSome = true) ∨
+       (vs.addVerified c idx key).1.byBlock = aset vs.byBlock key (bv.add idx (c.power idx))) := by
+  have eb := (VoteSet.recordVote_byBlock c vs idx key).1
+  unfold VoteSet.addVerified
+  simp only []
+  rw [eb]
+  split
+  · rename_i bv hb
+    refine ⟨bv, ?_, ?_⟩
+    · intro v
+      unfold VoteSet.has; rw [hb]
+      constructor
+      · intro hv; exact ⟨bv, rfl, hv⟩
+      · rintro ⟨b, e, hv⟩; cases e; exact hv
+    · split
+      · rename_i hc
+        left
+        refine ⟨eb, ?_⟩
+        cases hs : (alookup vs.votes idx).isSome
+        · simp [hs] at hc
+        · rfl
+      · right
+        rw [VoteSet.finish_byBlock, eb]
+  · rename_i hb
+    refine ⟨⟨false, [], 0⟩, ?_, ?_⟩
+    · intro v
+      unfold VoteSet.has; rw [hb]
+      constructor
+      · intro hv; cases hv
+      · rintro ⟨b, e, _⟩; cases e
+    · split
+      · rename_i hc
+        exact Or.inl ⟨eb, hc⟩
+      · right
+        rw [VoteSet.finish_byBlock, eb]
+
+theorem VoteSet.addVerified_has (c : Cfg) (vs : VoteSet) (idx : Nat) (key : Bid) (k : Bid) (u : Nat) :
+    ((vs.addVerified c idx key).1.has k u → vs.has k u ∨ (k = key ∧ u = idx)) ∧
+    (vs.has k u → (vs.addVerified c idx key).1.has k u) := by
+  obtain ⟨bv, hmem, hb | hb⟩ := VoteSet.addVerified_byBlock c vs idx key
+  · rw [VoteSet.has_congr hb.1]
+    exact ⟨Or.inl, id⟩
+  · rw [VoteSet.has_aset hb, BlockVotes.mem_add]
+    by_cases e : k = key
+    · subst e
+      rw [if_pos rfl]
+      constructor
+      · rintro (h | h)
+        · exact Or.inl ((hmem u).mp h)
+        · exact Or.inr ⟨rfl, h⟩
+      · intro h; exact Or.inl ((hmem u).mpr h)
+    · simp only [e, if_false]
+      exact ⟨Or.inl, id⟩
+
+theorem VoteSet.addVote_has (c : Cfg) (vs : VoteSet) (v : Vote) (k : Bid) (u : Nat) :
+    ((vs.addVote c v).1.has k u → vs.has k u ∨ (k = v.bid ∧ u = v.val)) ∧
+    (vs.has k u → (vs.addVote c v).1.has k u) := by
+  unfold VoteSet.addVote
+  repeat' split
+  all_goals first | exact ⟨Or.inl, id⟩ | exact VoteSet.addVerified_has c vs v.val v.bid k u
+
+theorem VoteSet.setPeerMaj23_fields (vs : VoteSet) (peer : Peer) (key : Bid) :
+    (vs.setPeerMaj23 peer key).votes = vs.votes ∧ (vs.setPeerMaj23 peer key).sum = vs.sum ∧
+      (vs.setPeerMaj23 peer key).maj23 = vs.maj23 := by
+  unfold VoteSet.setPeerMaj23
+  simp only []
+  repeat' split
+  all_goals exact ⟨rfl, rfl, rfl⟩
+
+theorem VoteSet.setPeerMaj23_byBlock (vs : VoteSet) (peer : Peer) (key : Bid) :
+    (vs.setPeerMaj23 peer key).byBlock = vs.byBlock ∨
+    (∃ bv : BlockVotes, alookup vs.byBlock key = some bv ∧
+      (vs.setPeerMaj23 peer key).byBlock = aset vs.byBlock key { bv with peerMaj23 := true }) ∨
+    (alookup vs.byBlock key = none ∧
+      (vs.setPeerMaj23 peer key).byBlock = vs.byBlock ++ [(key, ⟨true, [], 0⟩)]) := by
+  unfold VoteSet.setPeerMaj23
+  simp only []
+  split
+  · exact Or.inl rfl
+  · split
+    · rename_i bv hb
+      split
+      · exact Or.inl rfl
+      · exact Or.inr (Or.inl ⟨bv, hb, rfl⟩)
+    · rename_i hb
+      exact Or.inr (Or.inr ⟨hb, rfl⟩)
+
+theorem VoteSet.setPeerMaj23_bucket (vs : VoteSet) (peer : Peer) (key : Bid) (k : Bid) :
+    ((vs.setPeerMaj23 peer key).blockSum k = vs.blockSum k) ∧
+    (∀ u, (vs.setPeerMaj23 peer key).has k u ↔ vs.has k u) := by
+  rcases VoteSet.setPeerMaj23_byBlock vs peer key with e | ⟨bv, hb, e⟩ | ⟨hb, e⟩
+  · exact ⟨VoteSet.blockSum_congr e k, fun u => VoteSet.has_congr e k u⟩
+  · constructor
+    · rw [VoteSet.blockSum_aset' e]
+      by_cases hk : k = key
+      · subst hk
+        simp only [if_true]
+        unfold VoteSet.blockSum; rw [hb]
+      · simp only [hk, if_false]
+    · intro u
+      rw [VoteSet.has_aset e]
+      by_cases hk : k = key
+      · subst hk
+        simp only [if_true]
+        unfold VoteSet.has; rw [hb]
+        constructor
+        · intro hu; exact ⟨bv, rfl, hu⟩
+        · rintro ⟨b, e', hu⟩; cases e'; exact hu
+      · simp only [hk, if_false]
+  · unfold VoteSet.blockSum VoteSet.has
+    rw [e, alookup_append]
+    cases hl : alookup vs.byBlock k with
+    | some x => exact ⟨rfl, fun _ => Iff.rfl⟩
+    | none =>
+      by_cases hk : k = key
+      · rw [if_pos hk]
+        refine ⟨rfl, fun u => ?_⟩
+        constructor
+        · rintro ⟨b, e', hu⟩; cases e'; cases hu
+        · rintro ⟨b, e', _⟩; cases e'
+      · rw [if_neg hk]
+        exact ⟨rfl, fun _ => Iff.rfl⟩
+
+theorem wtUpTo_compl (power : Nat → Nat) (p : Nat → Bool) (k : Nat) :
+    VoteLog.wtUpTo power p k + VoteLog.wtUpTo power (fun v => !p v) k =
+      VoteLog.wtUpTo power (fun _ => true) k := by
+  induction k with
+  | zero => simp [VoteLog.wtUpTo]
+  | succ k ih =>
+    simp only [VoteLog.wtUpTo]
+    by_cases hp : p k = true <;> simp [hp] <;> omega
+
 theorem VoteSet.WF.empty (c : Cfg) : VoteSet.WF c VoteSet.empty := by
-  sorry
+  have hno : ∀ k v, ¬ VoteSet.empty.has k v := by
+    intro k v ⟨bv, hb, _⟩
+    simp [VoteSet.empty, alookup] at hb
+  refine ⟨MSv.empty c _, Qv.empty c, ?_, ?_, ?_, ?_, ?_, ?_⟩
+  · intro k hk
+    have : VoteSet.empty.blockSum k = 0 := by simp [VoteSet.blockSum, VoteSet.empty, alookup]
+    rw [this] at hk
+    unfold Cfg.quorum at hk; omega
+  · simp [VoteSet.empty]
+  · intro p hp; simp [VoteSet.empty] at hp
+  · simp [VoteSet.empty]
+  · intro k v h; exact absurd h (hno k v)
+  · intro v k h; simp [VoteSet.empty, alookup] at h
 
 theorem VoteSet.WF.addVote {c : Cfg} {vs : VoteSet} (h : vs.WF c) (v : Vote) : (vs.addVote c v).1.WF c := by
-  sorry
+  have hm := VoteSet.addVote_MS c (fun _ _ => true) vs v h.ms (fun _ _ => rfl)
+  have hq := VoteSet.addVote_Q c vs v h.q
+  refine VoteSet.WFp.toWF ?_ (fun _ => id) hm hq
+  unfold VoteSet.addVote
+  split
+  · exact h.toWFp
+  · rename_i hn
+    repeat' split
+    all_goals first | exact h.toWFp | exact VoteSet.addVerified_WFp v.val v.bid h.toWFp (by omega)
 
 theorem VoteSet.WF.setPeerMaj23 {c : Cfg} {vs : VoteSet} (h : vs.WF c) (peer : Peer) (key : Bid) :
     (vs.setPeerMaj23 peer key).WF c := by
-  sorry
+  obtain ⟨ev, es, em⟩ := VoteSet.setPeerMaj23_fields vs peer key
+  have hb := VoteSet.setPeerMaj23_bucket vs peer key
+  refine ⟨VoteSet.setPeerMaj23_MS c _ vs peer key h.ms, VoteSet.setPeerMaj23_Q c vs peer key h.q,
+    ?_, ?_, ?_, ?_, ?_, ?_⟩
+  · intro k hk
+    rw [(hb k).1] at hk; rw [em]; exact h.cross k hk
+  · rw [ev]; exact h.keys
+  · rw [ev]; exact h.keysLt
+  · rw [ev, es]; exact h.sum
+  · intro k v hv
+    rw [ev]; exact h.slot k v (((hb k).2 v).mp hv)
+  · intro v k hv
+    rw [ev] at hv
+    obtain ⟨k', hk'⟩ := h.slotHas v k hv
+    exact ⟨k', ((hb k').2 v).mpr hk'⟩
 
 /-- recorded votes are never removed -/
 theorem VoteSet.has_addVote {c : Cfg} {vs : VoteSet} {k : Bid} {u : Nat} (v : Vote) (h : vs.has k u) :
-    (vs.addVote c v).1.has k u := by
-  sorry
+    (vs.addVote c v).1.has k u :=
+  (VoteSet.addVote_has c vs v k u).2 h
 
 theorem VoteSet.has_setPeerMaj23 {vs : VoteSet} {k : Bid} {u : Nat} (peer : Peer) (key : Bid) (h : vs.has k u) :
-    (vs.setPeerMaj23 peer key).has k u := by
-  sorry
+    (vs.setPeerMaj23 peer key).has k u :=
+  ((VoteSet.setPeerMaj23_bucket vs peer key k).2 u).mpr h
 
 /-- **a well-signed vote of a validator with no conflicting vote in the set is recorded** (whether
 it is new or a duplicate) -/
 theorem VoteSet.addVote_records {c : Cfg} {vs : VoteSet} (h : vs.WF c) (v : Vote) (hv : v.wellSigned c)
     (ho : vs.only v.bid v.val) : (vs.addVote c v).1.has v.bid v.val := by
-  sorry
+  obtain ⟨hlt, haddr, hsig, hsigner⟩ := hv
+  -- a canonical slot means the vote is already in the bucket of `v.bid`
+  have hslot : ∀ b, alookup vs.votes v.val = some b → vs.has v.bid v.val := by
+    intro b hb
+    obtain ⟨k', hk'⟩ := h.slotHas v.val b hb
+    have := ho k' hk'
+    subst this; exact hk'
+  by_cases hhas : vs.has v.bid v.val
+  · exact VoteSet.has_addVote v hhas
+  · have hnone : alookup vs.votes v.val = none := by
+      cases hl : alookup vs.votes v.val with
+      | none => rfl
+      | some b => exact absurd (hslot b hl) hhas
+    have hget : vs.getVote v.val v.bid = false := by
+      unfold VoteSet.getVote
+      rw [hnone]
+      cases hl : alookup vs.byBlock v.bid with
+      | none => rfl
+      | some bv =>
+        simp only [Bool.false_or]
+        cases hc : bv.voted.contains v.val
+        · rfl
+        · exact absurd ⟨bv, hl, by simpa using hc⟩ hhas
+    unfold VoteSet.addVote
+    rw [if_neg (by omega), if_neg (by simp [haddr]), hget]
+    simp only [hsig, hsigner, decide_true, Bool.and_self, Bool.not_true, if_false, Bool.false_eq_true]
+    obtain ⟨bv, _, hb | hb⟩ := VoteSet.addVerified_byBlock c vs v.val v.bid
+    · rw [hnone] at hb; exact absurd hb.2 (by simp)
+    · rw [VoteSet.has_aset hb, BlockVotes.mem_add]
+      simp
 
 /-- a vote of another validator, or for the same value, keeps `only` -/
 theorem VoteSet.only_addVote {c : Cfg} {vs : VoteSet} {key : Bid} {u : Nat} (v : Vote)
     (ho : vs.only key u) (hv : v.val ≠ u ∨ v.bid = key) : (vs.addVote c v).1.only key u := by
-  sorry
+  intro k hk
+  rcases (VoteSet.addVote_has c vs v k u).1 hk with h1 | ⟨h1, h2⟩
+  · exact ho k h1
+  · rcases hv with hv | hv
+    · exact absurd h2.symm hv
+    · rw [h1, hv]
 
 theorem VoteSet.only_setPeerMaj23 {vs : VoteSet} {key : Bid} {u : Nat} (peer : Peer) (k : Bid)
     (ho : vs.only key u) : (vs.setPeerMaj23 peer k).only key u := by
-  sorry
+  intro k' hk'
+  exact ho k' (((VoteSet.setPeerMaj23_bucket vs peer k k').2 u).mp hk')
 
 /-- the empty set: nobody has voted -/
 theorem VoteSet.only_empty (key : Bid) (u : Nat) : VoteSet.empty.only key u := by
-  sorry
+  intro k ⟨bv, hb, _⟩
+  simp [VoteSet.empty, alookup] at hb
+
+/-- a recorded majority `k` other than `b` is impossible when validators carrying the quorum have no
+vote for anything but `b`: the bucket of `k` is disjoint from them and `2 * quorum > total` -/
+theorem VoteSet.majority_unique_aux {c : Cfg} {vs : VoteSet} (h : vs.WF c) (b : Bid) (Q : List Nat)
+    (hn : Q.Nodup) (hq : ∀ v ∈ Q, v < c.n ∧ vs.only b v)
+    (hp : c.quorum ≤ (Q.map c.power).sum) (k : Bid) (hm : vs.maj23 = some k) : k = b := by
+  apply Classical.byContradiction
+  intro hkb
+  have hqk := h.q k hm
+  unfold VoteSet.blockSum at hqk
+  cases hl : alookup vs.byBlock k with
+  | none => rw [hl] at hqk; simp at hqk; unfold Cfg.quorum at hqk; omega
+  | some bk =>
+    rw [hl] at hqk
+    have hqk' : c.quorum ≤ bk.sum := hqk
+    obtain ⟨hknd, hksum, hklt⟩ := h.ms k bk hl
+    have hdisj : ∀ v ∈ bk.voted, v ∉ Q := by
+      intro v hv hvq
+      exact hkb ((hq v hvq).2 k ⟨bk, hl, hv⟩)
+    have h1 := sum_le_wtUpTo c.power (fun v => Q.contains v) c.n Q hn
+      (fun v hv => ⟨(hq v hv).1, by simpa using hv⟩)
+    have h2 := sum_le_wtUpTo c.power (fun v => !Q.contains v) c.n bk.voted hknd
+      (fun v hv => ⟨(hklt v hv).1, by simpa using hdisj v hv⟩)
+    have h3 := wtUpTo_compl c.power (fun v => Q.contains v) c.n
+    have h4 := total_eq_wt c
+    rw [← hksum] at h2
+    unfold Cfg.quorum at hp hqk'
+    omega
 
 /-- **votes of validators carrying the quorum, all recorded for `b` and for nothing else, give the
 recorded majority `b`** — whatever else the set holds (votes of other validators for other values,
@@ -162,13 +667,48 @@ including a bucket that crossed nothing) and in whatever order everything arrive
 theorem VoteSet.quorum_majority {c : Cfg} {vs : VoteSet} (h : vs.WF c) (b : Bid) (Q : List Nat)
     (hn : Q.Nodup) (hq : ∀ v ∈ Q, v < c.n ∧ vs.has b v ∧ vs.only b v)
     (hp : c.quorum ≤ (Q.map c.power).sum) : vs.maj23 = some b := by
-  sorry
+  have hq1 : 1 ≤ c.quorum := by unfold Cfg.quorum; omega
+  have ⟨a, ha⟩ : ∃ a, a ∈ Q := by
+    cases Q with
+    | nil => simp at hp; omega
+    | cons a _ => exact ⟨a, List.mem_cons_self ..⟩
+  obtain ⟨_, ⟨bvb, hbb, _⟩, _⟩ := hq a ha
+  have hsub : ∀ v ∈ Q, v ∈ bvb.voted := by
+    intro v hv
+    obtain ⟨_, ⟨bv, hb, hm⟩, _⟩ := hq v hv
+    rw [hbb] at hb; cases hb; exact hm
+  obtain ⟨_, hbsum, _⟩ := h.ms b bvb hbb
+  have hge : c.quorum ≤ vs.blockSum b := by
+    unfold VoteSet.blockSum; rw [hbb]
+    show c.quorum ≤ bvb.sum
+    rw [hbsum]
+    exact Nat.le_trans hp (sum_map_le_of_subset c.power Q bvb.voted hn hsub)
+  have hsome := h.cross b hge
+  cases hm : vs.maj23 with
+  | none => rw [hm] at hsome; cases hsome
+  | some k =>
+    rw [VoteSet.majority_unique_aux h b Q hn (fun v hv => ⟨(hq v hv).1, (hq v hv).2.2⟩) hp k hm]
+
+/-- validators carrying the quorum that have no vote for anything but `b` (they need not be recorded
+yet): no other value can hold the recorded majority -/
+theorem VoteSet.majority_unique {c : Cfg} {vs : VoteSet} (h : vs.WF c) (b : Bid) (Q : List Nat)
+    (hn : Q.Nodup) (hq : ∀ v ∈ Q, v < c.n ∧ vs.only b v)
+    (hp : c.quorum ≤ (Q.map c.power).sum) (k : Bid) (hm : vs.maj23 = some k) : k = b :=
+  VoteSet.majority_unique_aux h b Q hn hq hp k hm
 
 /-- **recorded votes (for anything) of validators carrying more than 2/3 of the power give
 `hasTwoThirdsAny`** -/
 theorem VoteSet.any_of_members {c : Cfg} {vs : VoteSet} (h : vs.WF c) (R : List Nat)
     (hn : R.Nodup) (hr : ∀ v ∈ R, v < c.n ∧ ∃ k, vs.has k v)
     (hp : c.total * 2 / 3 < (R.map c.power).sum) : vs.hasTwoThirdsAny c = true := by
-  sorry
+  have hsub : ∀ v ∈ R, v ∈ vs.votes.map (·.1) := by
+    intro v hv
+    obtain ⟨_, k, hk⟩ := hr v hv
+    exact (alookup_isSome_iff _ _).mp (h.slot k v hk)
+  have hle := sum_map_le_of_subset c.power R _ hn hsub
+  rw [← h.sum] at hle
+  unfold VoteSet.hasTwoThirdsAny
+  simp only [gt_iff_lt, decide_eq_true_eq]
+  omega
 
 end Tmv.Cons
